@@ -4,9 +4,10 @@ CONSTANTS BlockLists = {"b1"}
           AsIsC = FALSE
           CosmC = FALSE
           Configs <- ConfHTTP
-          ForcedBeh <- BehTiny
-          SchedBeh <- BehTiny
-          FileBeh <- BehTiny
+          ForcedBeh <- BehAdmin
+          SchedBeh <- BehAdminSched
+          FileBeh <- BehAdmin
           SetURLBeh <- BehSetURL
+          Toggle = TRUE
           SetURLAsIs = FALSE
 INVARIANTS InvCoherent
